@@ -51,18 +51,24 @@ class _modules_copyable:
     context switches.
     """
 
+    __instance_lock__ = RLock()
+
     def __new__(cls, *args, **kwargs):
         """
-        Make this class a singleton (there exists at most one instance).
+        Make this class a singleton (there exists at most one instance). The
+        instance state is initialised exactly once, here (an `__init__` would
+        re-run, and reset the lock and reference count, on every
+        `_modules_copyable()` call), and under a lock so that concurrent first
+        uses cannot create two instances.
         """
-        if not hasattr(cls, "__instance__"):
-            cls.__instance__ = super().__new__(cls, *args, **kwargs)
+        with cls.__instance_lock__:
+            if not hasattr(cls, "__instance__"):
+                instance = super().__new__(cls, *args, **kwargs)
+                instance.lock = RLock()
+                instance.refcount = 0
+                instance.patched_table = False
+                cls.__instance__ = instance
         return cls.__instance__
-
-    def __init__(self):
-        self.lock = RLock()
-        self.refcount = 0
-        self.patched_table = False
 
     def __enter__(self):
         with self.lock:
